@@ -1427,11 +1427,33 @@ class AsType(Elemwise):
             meta = clear_known_categories(meta)
         return meta
 
+    def _is_value_preserving(self):
+        """Whether comparing the cast values equals comparing the original ones"""
+        old, new = self.frame._meta, self._meta
+        old = [old.dtype] if old.ndim == 1 else list(old.dtypes)
+        new = [new.dtype] if new.ndim == 1 else list(new.dtypes)
+        try:
+            return all(
+                o == n
+                or (
+                    isinstance(o, np.dtype)
+                    and isinstance(n, np.dtype)
+                    and np.can_cast(o, n, casting="safe")
+                )
+                for o, n in zip(old, new)
+            )
+        except TypeError:
+            return False
+
     def _simplify_up(self, parent, dependents):
         if isinstance(parent, Filter) and self._filter_passthrough_available(
             parent, dependents
         ):
-            return self._filter_simplification(parent)
+            if self._is_value_preserving():
+                return self._filter_simplification(parent)
+            # The cast changes values, the predicate has to keep looking at
+            # the cast frame
+            return self._filter_simplification(parent, parent.predicate)
         if isinstance(parent, Projection):
             dtypes = self.operand("dtypes")
             columns = determine_column_projection(self, parent, dependents)
